@@ -42,6 +42,15 @@ fn cert_desc(rec: &Value, idx: usize, is_leaf: bool) -> Value {
 	p["isCa"] = rec["isCa"].clone();
 	p["nb"] = day_time(rec["nbDay"].as_i64().unwrap());
 	p["na"] = day_time(rec["naDay"].as_i64().unwrap());
+	if rec["frac"].as_bool().unwrap_or(false) {
+		// the same whole second, written with a sub-second part and under an offset of +05:45
+		for f in ["nb", "na"] {
+			p[f]["ns"] = json!(500_000_000);
+			p[f]["h"] = json!(5);
+			p[f]["mi"] = json!(45);
+			p[f]["off"] = json!(20700);
+		}
+	}
 	p["ku"] = rec["ku"].clone();
 	p["eku"] = Value::Array(
 		rec["eku"]
